@@ -342,6 +342,22 @@ def eval_randgraph(h, fn, count, edge, connectivity, ensurelink, rmode, smode):
     return out, samples
 
 
+def _eval_jobs(arg):
+    from sa.src import Source
+    root, overlay, jobs = arg
+    h = H(Source(root, overlay), ["edgegraph.builder.randgraph", "edgegraph.builder.adjlist", "edgegraph.builder.explicit"])
+    fn = h.fn(FN)
+    out_ = []
+    for job in jobs:
+        count, edge, conn, ens, rmode, smode = job
+        try:
+            out, samples = eval_randgraph(h, fn, count, edge, conn, ens, rmode, smode)
+            out_.append((job, check_result(h, out, count, edge, ens), samples, None))
+        except Unknown as u:
+            out_.append((job, None, [], str(u)))
+    return out_
+
+
 def check_result(h, out, count, edge, ensurelink):
     if out.kind != "return":
         return f"raises {out.excname}"
@@ -400,30 +416,40 @@ def run(ctx):
                     res.note(f"bound not established symbolically: {name} on the {path}-connectivity path at {f.rel}:{call.lineno} (witness search decides)")
     res.rule("SAMPLE-BOUND/ENSURE", nob)
     # ---- evaluation / witness search
-    h = H(ctx.src, ["edgegraph.builder.randgraph", "edgegraph.builder.adjlist", "edgegraph.builder.explicit"])
-    fn = h.fn(FN)
     counts = list(range(1, 41)) if ctx.thorough else [1, 2, 3, 4, 5, 6, 7, 9, 12]
     if not proved:
         counts = sorted(set(counts) | set(range(1, 17 if not ctx.thorough else 65)))
-    n = 0
+    jobs = []
     for count in counts:
         edges = ("DirectedEdge", "UnDirectedEdge", "SymTwo") if count <= 4 else ("DirectedEdge",)
         for edge, conn, ens, rmode, smode in itertools.product(edges, (None, 0, 0.5, 1), (True, False), ("lo", "hi"), ("first", "last", "rotate")):
             if count > 6 and (smode == "last" or conn == 0.5 and rmode == "lo"):
                 continue
-            try:
-                out, samples = eval_randgraph(h, fn, count, edge, conn, ens, rmode, smode)
-                why = check_result(h, out, count, edge, ens)
-            except Unknown as u:
-                res.ob(False)
-                res.undecide(f"randgraph(count={count}, {edge}, connectivity={conn}, ensurelink={ens}): {u}")
-                continue
-            n += 1
-            res.ob(why is None, sig=(count, edge, conn, ens, rmode, smode), sample={"count": count, "edge": edge, "connectivity": conn, "ensurelink": ens, "randint": rmode, "sample_sizes": samples})
-            if why:
-                res.violation("RANDGRAPH", FN, f"connectivity={'default' if conn is None else 'given'},ensurelink={ens},small-count={count < 5}",
-                              f"randgraph(count={count}, edge={edge}, connectivity={conn}, ensurelink={ens}) with randint at its {'upper' if rmode == 'hi' else 'lower'} end: {why}",
-                              replay=f"import random\nfrom edgegraph.builder.randgraph import randgraph\nfor seed in range(200):\n    random.seed(seed)\n    u = randgraph(count={count}, connectivity={conn}, ensurelink={ens})\n    assert len(u.vertices) == {count}\nprint('ok')")
+            jobs.append((count, edge, conn, ens, rmode, smode))
+    root, overlay = str(ctx.src.root), dict(ctx.src.overlay)
+    if ctx.thorough:
+        import multiprocessing as mp
+        import os
+        nproc = min(16, os.cpu_count() or 1)
+        jobs.sort(key=lambda j: -j[0])
+        chunks = [jobs[i::nproc * 3] for i in range(nproc * 3)]
+        with mp.get_context("fork").Pool(nproc) as pool:
+            parts = pool.map(_eval_jobs, [(root, overlay, c) for c in chunks if c])
+        results = [r for p_ in parts for r in p_]
+    else:
+        results = _eval_jobs((root, overlay, jobs))
+    n = 0
+    for (count, edge, conn, ens, rmode, smode), why, samples, und in results:
+        if und:
+            res.ob(False)
+            res.undecide(f"randgraph(count={count}, {edge}, connectivity={conn}, ensurelink={ens}): {und}")
+            continue
+        n += 1
+        res.ob(why is None, sig=(count, edge, conn, ens, rmode, smode), sample={"count": count, "edge": edge, "connectivity": conn, "ensurelink": ens, "randint": rmode, "sample_sizes": samples})
+        if why:
+            res.violation("RANDGRAPH", FN, f"connectivity={'default' if conn is None else 'given'},ensurelink={ens},small-count={count < 5}",
+                          f"randgraph(count={count}, edge={edge}, connectivity={conn}, ensurelink={ens}) with randint at its {'upper' if rmode == 'hi' else 'lower'} end: {why}",
+                          replay=f"import random\nfrom edgegraph.builder.randgraph import randgraph\nfor seed in range(200):\n    random.seed(seed)\n    u = randgraph(count={count}, connectivity={conn}, ensurelink={ens})\n    assert len(u.vertices) == {count}\nprint('ok')")
     res.rule("RANDGRAPH-EVAL", n)
     det(ctx, res, prog)
     res.bounded_only = not proved
